@@ -1,6 +1,7 @@
 import MsiProofs.Props.C03b
 import MsiProofs.Lemmas.RelationalLife
 import MsiProofs.Lemmas.SelectView
+import MsiProofs.Lemmas.DropTotal
 /-
 C03, refinement to the relational model — the *view* of a package (every table definition with
 its rows as values) changes under each statement exactly as the plain relational model says, and
@@ -46,5 +47,9 @@ the requested order; as many rows as satisfy the condition -/
 def select_table_view := @MsiProofs.SelectView.select_table_view
 /-- the rows a select returns are in ascending primary-key order -/
 def select_order := @MsiProofs.SelectView.select_order
+
+/-- **the reply of `Delete::exec`**: refused exactly for an unknown table or a condition naming an
+unknown column; otherwise it succeeds (and then `delete_view` says what it did) -/
+def delete_reply := @MsiProofs.DropTotal.delete_reply
 
 end MsiProofs.C03
